@@ -37,6 +37,16 @@ def rule_classify(ctx: Ctx) -> None:
     lp = lps[0]
     g = U(lp.node.target)
     lists = ("self.detection_warning_results", "self.detection_success_results", "self.detection_fail_results")
+    # every annotated object is classified: the loop is skipped only when there is no object at all (an empty cloud still means "not detected" / "occluded")
+    for p in paths:
+        looped = any(e.kind == "loop" for e in p.effects)
+        if looped or (p.exit and p.exit[0] == "raise"):
+            continue
+        f = {S(k): v for k, v in p.facts.items()}
+        has_gt = f.get("truthy:ground_truth_objects")
+        ctx.check(has_gt is False, "C12-classify", "_evaluate_pointcloud_for_detection", f"skips-objects:{has_gt}",
+                  f"on [{p.cond_text()[:120]}] the function returns without classifying the annotated objects although there {'are some' if has_gt else 'may be some'}: each object must be reported as exactly one of detected / not detected / warning",
+                  fi=fi, expected="early return only when ground_truth_objects is empty", found=p.cond_text()[:160])
     rows = 0
     for bp in lp.body:
         occ = fact_where(bp, lambda k: S(k).startswith("truthy:DynamicObjectWithSensingResult(") and S(k).endswith(".is_occluded"))
